@@ -43,6 +43,17 @@ func c03Round2(c *Ctx) {
 
 // ------------------------------------------------------------------------------ R03f
 
+// cellOf: a variable that is captured by a closure lives in a cell; every load of the cell stands
+// for the variable.
+func cellOf(v ssa.Value) ssa.Value {
+	if u, ok := v.(*ssa.UnOp); ok && u.Op == token.MUL {
+		if a, ok := u.X.(*ssa.Alloc); ok {
+			return a
+		}
+	}
+	return v
+}
+
 func isDirLocAddr(p *Prog, a ssa.Value) (ssa.Value, bool) {
 	fa, ok := a.(*ssa.FieldAddr)
 	if !ok {
@@ -50,7 +61,7 @@ func isDirLocAddr(p *Prog, a ssa.Value) (ssa.Value, bool) {
 	}
 	tn, f, _ := p.fieldAddr(fa)
 	if strings.HasSuffix(tn, "lib/zipslicer.Directory") && f == "DirLoc" {
-		return fa.X, true
+		return cellOf(fa.X), true
 	}
 	return nil, false
 }
@@ -82,8 +93,10 @@ func dirLocRestored(p *Prog) (out []gFinding) {
 		n := 0
 		for _, st := range stores {
 			obj, _ := isDirLocAddr(p, st.Addr)
-			if _, fresh := obj.(*ssa.Alloc); fresh {
-				continue // initialising a directory this function creates
+			if a, fresh := obj.(*ssa.Alloc); fresh {
+				if _, isPtr := derefType(a.Type()).Underlying().(*types.Pointer); !isPtr {
+					continue // initialising a directory this function creates
+				}
 			}
 			// a store of a value that was itself read from obj.DirLoc puts an earlier offset back
 			if l, isLoad := stripConv(st.Val).(*ssa.UnOp); isLoad && loads[l] == obj {
@@ -93,7 +106,7 @@ func dirLocRestored(p *Prog) (out []gFinding) {
 			escapes := false
 			for _, r := range succ {
 				for _, res := range r.Results {
-					if dependsOn(res, func(x ssa.Value) bool { return x == obj }) {
+					if dependsOn(res, func(x ssa.Value) bool { return cellOf(x) == obj }) {
 						escapes = true
 					}
 				}
